@@ -553,7 +553,9 @@ func (index *setIndex) ProcessAfterUpdate(ctx *IndexingContext) {
 
 		for _, oldVal := range oldValues {
 			indexBucket := index.getIndexBucket(ctx.Tx(), oldVal.Value)
-			ctx.ErrHolder.SetError(indexBucket.DeleteListEntry(TypeString, ctx.RowId).Err)
+			if ctx.ErrHolder.SetError(indexBucket.DeleteListEntry(TypeString, ctx.RowId).Err) {
+				return // the index bucket could not be opened or written
+			}
 			if k, _ := indexBucket.Cursor().First(); k == nil {
 				ctx.ErrHolder.SetError(index.deleteIndexKey(ctx.Tx(), oldVal.Value))
 			}
@@ -573,7 +575,9 @@ func (index *setIndex) ProcessBeforeDelete(ctx *IndexingContext) {
 		values := index.getCurrentValues(ctx)
 		for _, val := range values {
 			indexBucket := index.getIndexBucket(ctx.Tx(), val.Value)
-			ctx.ErrHolder.SetError(indexBucket.DeleteListEntry(TypeString, ctx.RowId).Err)
+			if ctx.ErrHolder.SetError(indexBucket.DeleteListEntry(TypeString, ctx.RowId).Err) {
+				return // the index bucket could not be opened or written
+			}
 			if k, _ := indexBucket.Cursor().First(); k == nil {
 				ctx.ErrHolder.SetError(index.deleteIndexKey(ctx.Tx(), val.Value))
 			}
